@@ -62,7 +62,51 @@ type c19ChildReq struct {
 	PubSet  json.RawMessage
 }
 
+// c19ColdReq: the documents a fresh process parses as the very first thing it does, on G goroutines released together.
+type c19ColdReq struct {
+	Texts []string
+	G     int
+}
+
+// c19ColdWork is what each goroutine of a cold start does with its document.
+func c19ColdWork(text string) string {
+	p, err := parseText(text)
+	if err != nil && !warning.Is(err) {
+		return "error: " + err.Error()
+	}
+	out := ""
+	if err != nil {
+		out = "warning: " + err.Error() + "\n"
+	}
+	jb, jerr := safeJSONMarshal(p)
+	yb, yerr := safeYAMLMarshal(p)
+	return out + fmt.Sprintf("json(%v): %s\nyaml(%v): %s", jerr, jb, yerr, yb)
+}
+
 func init() {
+	registerChild("c19cold", func(in []byte) any {
+		var q c19ColdReq
+		if err := json.Unmarshal(in, &q); err != nil {
+			return []string{"child: " + err.Error()}
+		}
+		res := make([]string, q.G)
+		var ready, done sync.WaitGroup
+		start := make(chan struct{})
+		for g := 0; g < q.G; g++ {
+			ready.Add(1)
+			done.Add(1)
+			go func(g int) {
+				defer done.Done()
+				ready.Done()
+				<-start
+				res[g] = c19ColdWork(q.Texts[g%len(q.Texts)])
+			}(g)
+		}
+		ready.Wait()
+		close(start)
+		done.Wait()
+		return res
+	})
 	registerChild("c19life", func(in []byte) any {
 		var q c19ChildReq
 		if err := json.Unmarshal(in, &q); err != nil {
@@ -319,8 +363,19 @@ func c19BuildOne(r *rand.Rand, kp *keys.Pair, observe bool) (*c19Shared, error) 
 	s := &c19Shared{kp: kp}
 	build := func() *ordered.MapSA {
 		m := ordered.NewMap[string, any](0)
+		// a long run of deleted keys at the front, deleted keys in the middle, a long live tail: 84 slots, fewer than
+		// half of them dead, so nothing has compacted them away
+		for i := 0; i < 20; i++ {
+			m.Set(fmt.Sprintf("lead%d", i), i)
+		}
 		for i := 0; i < 24; i++ {
 			m.Set(fmt.Sprintf("k%d", i), []any{i, fmt.Sprint("v", i), ordered.MapFromItems(ordered.TupleSA{Key: "n", Value: i})})
+		}
+		for i := 0; i < 40; i++ {
+			m.Set(fmt.Sprintf("t%d", i), fmt.Sprint("tail", i))
+		}
+		for i := 0; i < 20; i++ {
+			m.Delete(fmt.Sprintf("lead%d", i))
 		}
 		for i := 0; i < 24; i += 3 {
 			m.Delete(fmt.Sprintf("k%d", i))
@@ -864,6 +919,72 @@ func checkC19(c *run.Ctx) {
 		}
 	})
 
+	// ---- (E) cold start: the first thing a fresh process does with the library is done by 16 goroutines at once
+	// (an agent starting its workers). Lazily built package-level state is built exactly then; the race detector
+	// watches the child (its log lands next to this process's), and every goroutine's result must be the one this
+	// process computes sequentially.
+	c.Phase("cold-start", func() {
+		lp := ""
+		for _, f := range strings.Fields(os.Getenv("GORACE")) {
+			if strings.HasPrefix(f, "log_path=") {
+				lp = strings.TrimPrefix(f, "log_path=")
+			}
+		}
+		rounds := c.N(6, 40)
+		type round struct {
+			texts []string
+			res   []string
+			err   error
+		}
+		rs := make([]round, rounds)
+		var wg sync.WaitGroup
+		sem := make(chan struct{}, 4) // few children at a time: each wants its 16 goroutines truly parallel
+		for k := 0; k < rounds; k++ {
+			for j := 0; j < 1+k%4; j++ {
+				if t, err := c19Text(uint64(c.Seed)*3000017 + uint64(k*8+j)); err == nil {
+					rs[k].texts = append(rs[k].texts, t)
+				}
+			}
+			if len(rs[k].texts) == 0 {
+				continue
+			}
+			wg.Add(1)
+			sem <- struct{}{}
+			go func(k int) {
+				defer wg.Done()
+				defer func() { <-sem }()
+				env := []string{}
+				if lp != "" {
+					env = append(env, fmt.Sprintf("GORACE=halt_on_error=0 exitcode=0 log_path=%s.cold%d", lp, k))
+				}
+				rs[k].err = freshProcessEnv("c19cold", c19ColdReq{Texts: rs[k].texts, G: 16}, &rs[k].res, env...)
+			}(k)
+		}
+		wg.Wait()
+		for k := range rs {
+			if len(rs[k].texts) == 0 {
+				continue
+			}
+			if rs[k].err != nil {
+				c.Infra("cold-start child %d: %v", k, rs[k].err)
+				continue
+			}
+			for g, got := range rs[k].res {
+				text := rs[k].texts[g%len(rs[k].texts)]
+				want := c19ColdWork(text)
+				c.Eval(1)
+				if got != want {
+					c.Violation(fmt.Sprintf("cold/%d", k), map[string]any{"what": fmt.Sprintf("goroutine %d of 16 doing the first Parse of a fresh process got a different result than a sequential Parse of the same document", g),
+						"concurrent_cold_start": clip(got, 3000), "sequential": clip(want, 3000), "document": clip(text, 4000)})
+					return
+				}
+			}
+			c.Count("cold_start_processes", 1)
+			c.Count("cold_start_goroutine_results_compared", len(rs[k].res))
+			c.Feature("cold-start", len(rs[k].texts))
+		}
+	})
+
 	// ---- race detector reports
 	reports := c19RaceReports()
 	c.Count("race_detector_reports", len(reports))
@@ -889,7 +1010,7 @@ func checkC19(c *run.Ctx) {
 	}
 	c.Sample(map[string]any{"shared_map_slots": fmt.Sprint(sh.m.VerifSlots()), "goroutines": c19Goroutines, "rounds": rounds, "max_simultaneous_observers": maxInflight})
 	c.Finish("exploration",
-		"built with the Go race detector (-race, halt_on_error=0, reports read from the log files and de-duplicated by go-pipeline frames). (A) 16 goroutines each run the whole life cycle (generate, Parse, Interpolate, matrix interpolation, marshal to JSON and YAML, SignSteps, Verify) on their own documents, released by a start barrier; the same work is then repeated sequentially and JSON/YAML bytes, Ed25519 signature bytes and outcomes are compared. (B) shared read-only fixtures - an ordered map carrying tombstones and nested maps, a parsed and signed pipeline, a key set, one private key with one shared step, a plugin, a validated key - are hit by 16 goroutines x 12 random observers per round (Get, Contains, Len, IsZero, Range, ToMap, ToMapRecursive, Equal against itself and a twin, both marshallers of map and pipeline, Verify of every shared step against the shared key set, Sign with the shared key, FullSource, Validate, matrix token interpolation, Parse) with results compared to the sequential ones; an atomic gauge records the overlap achieved. (C) sequentially, deep state (slot layout + index through the hook, model trees, deep copies incl. unexported fields, the env map and the key set) is compared before/after every observer. (D) the life cycle (Parse incl. warning text, Interpolate, marshalling, SignSteps, Verify) of generated and of all corpus documents is run at the end of this long-lived process, forwards and backwards, and once each in a fresh child process of the same binary; results must be identical (no dependence on what the process did before). distinct_nontrivial counts distinct observer kinds and disjoint outcome classes",
+		"built with the Go race detector (-race, halt_on_error=0, reports read from the log files and de-duplicated by go-pipeline frames). (A) 16 goroutines each run the whole life cycle (generate, Parse, Interpolate, matrix interpolation, marshal to JSON and YAML, SignSteps, Verify) on their own documents, released by a start barrier; the same work is then repeated sequentially and JSON/YAML bytes, Ed25519 signature bytes and outcomes are compared. (B) shared read-only fixtures - an ordered map carrying tombstones and nested maps, a parsed and signed pipeline, a key set, one private key with one shared step, a plugin, a validated key - are hit by 16 goroutines x 12 random observers per round (Get, Contains, Len, IsZero, Range, ToMap, ToMapRecursive, Equal against itself and a twin, both marshallers of map and pipeline, Verify of every shared step against the shared key set, Sign with the shared key, FullSource, Validate, matrix token interpolation, Parse) with results compared to the sequential ones; an atomic gauge records the overlap achieved. (C) sequentially, deep state (slot layout + index through the hook, model trees, deep copies incl. unexported fields, the env map and the key set) is compared before/after every observer. (D) the life cycle (Parse incl. warning text, Interpolate, marshalling, SignSteps, Verify) of generated and of all corpus documents is run at the end of this long-lived process, forwards and backwards, and once each in a fresh child process of the same binary; results must be identical (no dependence on what the process did before). (E) fresh child processes whose first use of the library is 16 goroutines parsing and marshalling at once, under the race detector, results compared with sequential ones. distinct_nontrivial counts distinct observer kinds and disjoint outcome classes",
 		map[string]any{"race_detector": raceOn},
 		[]string{"the race detector only sees accesses that executed", "ECDSA/RSA-PSS signatures are randomised and compared by verification, Ed25519 bytewise"})
 }
